@@ -180,6 +180,35 @@ def run(out: Outcome) -> None:
                 out.violation(f"streaming MMD returns {float(r.distance)!r} at update {t}, the batch value on the last {w} values is {want!r}", rep)
                 break
         out.case({"streaming": True, "window": w, "dim": dim, "cs": cs, "n": len(stream), "h": hash(ref.tobytes()) & 0xFFFFFF})
+    # the documented use of the streaming detector: a 1-D reference and SCALAR updates (`update(value: Union[int, float])`) - the values as Python floats / ints (from a
+    # list, a CSV reader, a JSON message), as NumPy scalars of several widths (elements of an array) and as 0-d arrays; all multiples of 1/8 so that every type holds
+    # exactly the same numbers, and the result must be the batch value of those numbers
+    casts = [("float", float), ("int", lambda v: int(v)), ("np.float64", np.float64), ("np.float32", np.float32), ("np.int64", lambda v: np.int64(v)),
+             ("np.float16", np.float16), ("0-d array", lambda v: np.array(v))]
+    for name, cast in casts:
+        w = rng.randint(2, 5)
+        sigma = 1.0
+        whole = name in ("int", "np.int64")
+        q = (lambda: float(rng.randint(-6, 6))) if whole else (lambda: rng.randint(-40, 40) / 8.0)
+        ref1 = np.array([q() for _ in range(rng.randint(3, 8))])
+        stream = [q() for _ in range(w + rng.randint(1, 6))]
+        det = MMDStreaming(window_size=w, kernel=partial(rbf_kernel, sigma=sigma))
+        rep = {"window": w, "dim": 1, "sigma": sigma, "ref": ref1.tolist(), "stream": stream, "value_type": name, "kind": "scalar updates on a 1-D reference"}
+        try:
+            det.fit(X=ref1)
+            for t, v in enumerate(stream, 1):
+                r, _ = det.update(value=cast(v))
+                if (r is None) != (t < w):
+                    out.violation(f"streaming MMD fed {name} scalars returned {'nothing' if r is None else 'a value'} at update {t} (window_size={w})", rep)
+                    break
+                if r is not None:
+                    want = unbiased(ref1.reshape(-1, 1), np.array(stream[t - w: t]).reshape(-1, 1), sigma)
+                    if abs(float(r.distance) - want) > 1e-9:
+                        out.violation(f"streaming MMD fed {name} scalars returns {float(r.distance)!r} at update {t}, the batch value on the last {w} values is {want!r}", rep)
+                        break
+        except Exception as e:  # noqa: BLE001
+            out.violation(f"streaming MMD on a 1-D reference: update(value=<{name}>) raised {type(e).__name__}: {e}", rep)
+        out.case({"streaming": True, "scalar_updates": name, "window": w})
     res = run_driver(lines)
     for got, exp in zip(res, expect):
         if exp is None:
